@@ -3,6 +3,9 @@
    decimal code points / bytes, "-" for the empty string)
    Output line: id TAB observation *)
 open Model
+(* the extracted model defines its own [string] (Coq's), used only inside the
+   model for literals; restore OCaml's for the driver *)
+type string = Stdlib.String.t
 
 (* ---- conversions between OCaml ints and the extracted numerals ---- *)
 let rec pos_of_int (i : int) : positive =
@@ -80,6 +83,38 @@ let parse_tree (a : string) : pat =
     items n in
   tree ()
 
+(* ---- Summary ---- *)
+let var_of_idx i = List.nth all_vars i
+let show_value = function
+  | None -> "N"
+  | Some (VS x) -> "S" ^ arg_of_str x
+  | Some (VI z) -> "I" ^ string_of_z z
+  | Some (VA l) -> "A" ^ string_of_int (List.length l) ^ ":" ^ String.concat "," (List.map arg_of_str l)
+let show_opt_s = function None -> "N" | Some x -> "S" ^ arg_of_str x
+let dump_entry (e : entry) : string =
+  let gs = List.map (fun v -> match get e v with Val x -> show_value x | _ -> "PANIC") all_vars in
+  if List.mem "PANIC" gs then "PANIC" else
+  "P=" ^ arg_of_str (print_entry e) ^ "|C=" ^ bool_obs (is_completed e) ^ "|B=" ^ show_opt_s (sum_pkgbase e)
+  ^ "|V=" ^ show_opt_s (sum_pkgversion e) ^ "|G=" ^ String.concat ";" gs
+let split3 (a : string) : string * string * string =
+  match String.index_opt a ':' with
+  | None -> failwith "op"
+  | Some i ->
+      let rest = String.sub a (i + 1) (String.length a - i - 1) in
+      (match String.index_opt rest ':' with
+       | None -> (String.sub a 0 i, rest, "")
+       | Some j -> (String.sub a 0 i, String.sub rest 0 j, String.sub rest (j + 1) (String.length rest - j - 1)))
+let sop_of_arg (a : string) : sop =
+  let (k, v, x) = split3 a in
+  let v = var_of_idx (int_of_string v) in
+  match k with
+  | "s" -> SetS (v, str_of_arg (if x = "" then "-" else x))
+  | "i" -> SetI (v, z_of_decimal x)
+  | "a" -> SetA (v, if x = "" then [] else List.map str_of_arg (String.split_on_char '|' x))
+  | "p" -> Push (v, str_of_arg (if x = "" then "-" else x))
+  | _ -> failwith "op kind"
+let rec idx_of_var v l i = match l with [] -> -1 | x :: r -> if x = v then i else idx_of_var v r (i + 1)
+
 let run (op : string) (args : string list) : string =
   match op, args with
   | "dewey.new", [p] ->
@@ -116,6 +151,26 @@ let run (op : string) (args : string list) : string =
       let tr = parse_tree t in
       if print tr <> str_of_arg p then "TREE-PRINT-MISMATCH"
       else bool_obs (spec_match tr (str_of_arg name))
+  | "sum.ops", ops ->
+      (match run empty (List.map sop_of_arg ops) with
+       | Val e -> dump_entry e
+       | Panic _ -> "PANIC" | Fail _ -> "E" | OutOfFuel -> "FUEL")
+  | "sum.parse", [t] ->
+      (match parse_entry (str_of_arg t) with
+       | Val e -> "OK|" ^ dump_entry e
+       | Fail ELine -> "E:Line" | Fail EVar -> "E:Var" | Fail EInt -> "E:Int"
+       | Fail (EMissing v) -> "E:Missing:" ^ string_of_int (idx_of_var v all_vars 0)
+       | Panic _ -> "PANIC" | OutOfFuel -> "FUEL")
+  | "stream", chunks ->
+      let rec go st cs acc =
+        match cs with
+        | [] -> (List.rev acc, st)
+        | c :: r ->
+            (match stream_write st (str_of_arg c) with
+             | WOk st' -> go st' r (("ok:" ^ string_of_int (List.length st'.entries)) :: acc)
+             | WErr st' -> (List.rev (("err:" ^ string_of_int (List.length st'.entries)) :: acc), st')) in
+      let (w, st) = go stream_init chunks [] in
+      "W=" ^ String.concat "," w ^ "|P=" ^ arg_of_str (print_stream st.entries)
   | _ -> "UNKNOWN-OP"
 
 let () =
